@@ -49,6 +49,8 @@ KIND_PROPS = {
     "query:rsim":   {"C12"},
     "query:rsimops": {"C12", "C13"},
     "query:rrev":   {"C12", "C13"},
+    "query:rsimcomp": {"C12"},
+    "query:rrevcomp": {"C12"},
     "query:pairs":  {"C19"},
     "query:lookup": {"C16"},
 }
